@@ -35,7 +35,7 @@ ASSUMPTIONS = [
     'one target loop per scenario',
 ]
 RULE = ('2..3 caller threads, each with its own loop, call ensure_aw(aw, T) on one target loop T that is idle, running '
-        'via loop_in_thread, the caller\'s own loop, or closed; awaitables return / raise / sleep for durations from a '
+        'via loop_in_thread, the caller\'s own loop, or closed; awaitables return (tuples, None, exception objects, carrier-shaped tuples) / raise / sleep for durations from a '
         'grid, given as coroutines or tasks; real threads and loops under the baton scheduler with schedule points at '
         'is_running / is_closed reads, the lock table, the creation lock, the loop lock, run_coroutine_threadsafe, the '
         'pool, the spin in loop_in_thread; the label trace is replayed on the Lean model; monitor: result / exception '
@@ -58,6 +58,19 @@ def make_exc(c, which):
     if which == 3:
         return cf.InvalidStateError(f'awaitable {c}')
     return Boom(c)
+
+
+def make_val(c, which):
+    """The object a returning awaitable returns (the caller must receive this very object, whatever it is)."""
+    if which == 1:
+        return Boom(c)                      # an exception *object* as a value: a worker handing back the error it met
+    if which == 2:
+        return None
+    if which == 3:
+        return (ValueError(f'collected by awaitable {c}'), None)    # shaped like an (error, result) carrier
+    if which == 4:
+        return asyncio.CancelledError(f'returned, not raised, by awaitable {c}')
+    return ('value', c)
 
 
 class Boom(Exception):
@@ -274,7 +287,9 @@ def gen_case(rng):
                     'start': rng.choice([0, 0, 1, 2]),
                     # which error a raising awaitable raises: the library's bridges (executor future, thread-safe
                     # future, wrap_future) carry some classes over as a different class or as a copy
-                    'exc': rng.choice([0, 0, 1, 2, 3])})
+                    'exc': rng.choice([0, 0, 1, 2, 3]),
+                    # what a returning awaitable returns: any object is a value, an exception instance included
+                    'val': rng.choice([0, 0, 0, 1, 2, 3, 4])})
     # the stop function of loop_in_thread called by two threads at once: each call returns only once the loop stopped
     return {'mode': mode, 'aws': aws, 'stop2': mode == 'forever' and rng.random() < 0.5}
 
@@ -335,7 +350,7 @@ def run_case(case, seed, pct=0, choices=None):
             E.labels.append(f'aw:{c}')
             if spec['raise']:
                 raise info[c].setdefault('exc', make_exc(c, spec.get('exc', 0)))
-            return info[c].setdefault('val', ('value', c))
+            return info[c].setdefault('val', make_val(c, spec.get('val', 0)))
         if spec['kind'] == 'task':
             E.labels.append(f'pre:{c}')
             return T.create_task(work())
